@@ -1345,6 +1345,14 @@ class JumpBase(FinalInstruction):
         # Release the used values as well (condition operands):
         super().delete()
 
+    def remove_from_block(self):
+        """Remove this jump from its block and from the predecessors of
+        its targets"""
+        while self._block_map:
+            _, block = self._block_map.popitem()
+            block.references.discard(self)
+        super().remove_from_block()
+
     @property
     def targets(self):
         """Gets a list of targets that this instruction jumps to"""
